@@ -35,6 +35,10 @@ def run(pid, tier, seed, replay=None):
         for file in (11, 13, 15, 1):
             directed.append([{"f": "init", "h": 1}, {"f": "read_mem", "h": 1, "file": file}, {"f": "read", "h": 1, "file": file}, {"f": "read_mem", "h": 1, "file": 1},
                              {"f": "glamfit", "h": 1, "arg": 0}, {"f": "glamfit", "h": 1, "arg": 1}, {"f": "glamfit", "h": 1, "arg": 1}, {"f": "accessors", "h": 1, "arg": 0}, {"f": "free", "h": 1}])
+        # an initialised handle that holds no table: writing fails (nothing may be kept), keys can be written and read, then a table arrives
+        directed.append([{"f": "init", "h": 1}] + [{"f": "write_mem", "h": 1, "arg": a} for a in range(4)] + [{"f": "write", "h": 1, "arg": 0}, {"f": "write", "h": 1, "arg": 3},
+                        {"f": "write_key", "h": 1, "arg": 0}, {"f": "get_key", "h": 1, "arg": 0}, {"f": "read_key", "h": 1, "arg": 1}, {"f": "write_mem", "h": 1, "arg": 0},
+                        {"f": "read_mem", "h": 1, "file": 1}, {"f": "write_mem", "h": 1, "arg": 0}, {"f": "free", "h": 1}])
         seqs = directed + seqs
         sf = os.path.join(wd, "seqs.ndjson")
         vlib.write_ndjson(sf, seqs)
@@ -67,7 +71,7 @@ def run(pid, tier, seed, replay=None):
         ck.cov["traces_validated_against_impl"] = len(seqs)
         ck.cov["evaluations"] = len(rows)
         ck.cov["distinct_nontrivial"] = len(seqs)
-        ck.cov["rule"] = "call sequences: 24 directed ones (every function x 4 argument classes on each valid file; failing reads) and TLC-simulated sequences of 30 calls over 3 handles"
+        ck.cov["rule"] = "call sequences: 25 directed ones (every function x 4 argument classes on each valid file; failing reads) and TLC-simulated sequences of 30 calls over 3 handles"
         return ck.finish(exhaustive=False)
     finally:
         if not os.environ.get("VERIF_KEEP"):
